@@ -10,6 +10,7 @@
 //                                                          rank of the volume ids, not contiguous)
 //     6 two recorders, disjoint maps, filter (on ; off)  9 the same with (off ; on): declared filter
 //                                                          is the AND whatever the callback order
+//     17 the same with (on ; on): the merged filter is ON with two callbacks
 //     10 {inner->0}, selection = {energy_deposition} only (no pre-step field: the pre-step gather
 //        action exists only because detectors are declared)
 //     11 {inner->3, world->0} + filter, selection {energy_deposition}
@@ -17,7 +18,8 @@
 //     7 SimpleCalo alone, labels {inner, g1}            13 SimpleCalo, labels {g1, inner}
 //     oh<k> one recorder selecting ONLY flag k (each of the 17 flags of StepSelection)
 //     dj<k> two recorders with disjoint one-flag selections (k ; (k+5) mod 17)
-//   x slots {1,2,8} x {1 stream | 2 streams, alternating from root to root}
+//   x slots {1,2,8} x {1 stream | 2 streams, changing from root to root: stream = (pidx/2 +
+//     pidx/4) % 2, event = (pidx/3) % 4, decoupled from the start position in the low bit of pidx}
 //   x track order {none; reindex_shuffle, reindex_status (+ particle_type, both_action in
 //     thorough) for modes 0 and 4: thread id != slot id},
 //   always with ActionDiagnostic and StepDiagnostic attached; primaries carry event ids 0..3.
@@ -30,7 +32,9 @@
 // and compares it element-wise with the raw slots that carry a detector id;
 // SimpleCalo per-stream tallies and totals == sum of expected deposits per (stream, detector);
 // ActionDiagnostic == histogram of (particle, post-step action) over active slots;
-// StepDiagnostic == histogram of step counts of killed tracks (66 bins, clamped at 65);
+// StepDiagnostic == histogram of step counts of killed tracks (66 bins, clamped at 65; 4 bins
+// clamped at 3 in m0.s8.t1 / m4.s8.t1, where the overflow bin is reached: tags
+// step-diagnostic:overflow-bin:{tie,beyond});
 // and once per root ActionDiagnostic::calc_actions_map() == the labelled non-zero counts;
 // after every root the three tallies are clear()ed, must read zero, and start again.
 // Every configuration of the lattice is valid: a rejection while building it is a violation.
@@ -47,6 +51,7 @@ struct ScoreCfg
     unsigned streams;
     TrackOrder order{TrackOrder::none};
     int hot{-1}, hot2{-1};  // one-flag selections (modes 15 / 16)
+    unsigned step_max_bin{64};  // StepDiagnostic max_step_bin (2 for m0/m4 with 8 slots, 1 stream)
 };
 
 // merged declared filters / selection of a configuration
@@ -136,6 +141,7 @@ static LoopConfig make_cfg(ScoreCfg const& sc, Declared* decl, int inner_vol, in
     c.probes = {StepActionOrder::user_pre, StepActionOrder::user_post};
     c.action_diagnostic = true;
     c.step_diagnostic = true;
+    c.step_diagnostic_max_bin = sc.step_max_bin;
     decl->detectors.clear();
     decl->nonzero = false;
     decl->selection = StepSelection::all();
@@ -189,13 +195,14 @@ static LoopConfig make_cfg(ScoreCfg const& sc, Declared* decl, int inner_vol, in
             break;
         case 6:
         case 9:
+        case 17:
             c.recorder_filters = det({{inner_vol, 0}});
-            c.recorder_filters.nonzero_energy_deposition = (sc.mode == 6);
+            c.recorder_filters.nonzero_energy_deposition = (sc.mode != 9);
             c.second_recorder = true;
             c.recorder2_filters = det({{world_vol, 1}});
-            c.recorder2_filters.nonzero_energy_deposition = (sc.mode == 9);
+            c.recorder2_filters.nonzero_energy_deposition = (sc.mode != 6);
             decl->detectors = {{inner_vol, 0}, {world_vol, 1}};
-            decl->nonzero = false;  // only if all agree, whatever the order
+            decl->nonzero = (sc.mode == 17);  // only if all agree, whatever the order
             break;
         case 10:
             c.recorder_filters = det({{inner_vol, 0}});
@@ -276,7 +283,7 @@ int main(int argc, char** argv)
     bool const thorough = R.thorough();
     int const bound = 2;
     std::vector<ScoreCfg> cfgs;
-    for (int mode = 0; mode <= 14; ++mode)
+    for (int mode : {0, 1, 2, 3, 4, 5, 6, 7, 8, 9, 10, 11, 12, 13, 14, 17})
         for (unsigned s : {1u, 2u, 8u})
             for (unsigned streams : {1u, 2u})
             {
@@ -285,7 +292,12 @@ int main(int argc, char** argv)
                 if (!thorough && streams == 2
                     && !(mode == 0 || mode == 4 || mode == 7 || mode == 9 || mode == 12 || mode == 13))
                     continue;
-                cfgs.push_back({fmt("m%d.s%u.t%u", mode, s, streams), mode, s, streams});
+                ScoreCfg sc{fmt("m%d.s%u.t%u", mode, s, streams), mode, s, streams};
+                // a StepDiagnostic with 4 bins (0, 1, 2, overflow) where the most tracks are
+                // alive: the clamp min(num_steps, num_bins - 1) binds (tie and beyond)
+                if ((mode == 0 || mode == 4) && s == 8 && streams == 1)
+                    sc.step_max_bin = 2;
+                cfgs.push_back(sc);
             }
     // thread id != slot id
     {
@@ -376,9 +388,9 @@ int main(int argc, char** argv)
         std::map<std::pair<int, int>, uint64_t> exp_steps;  // (particle, nsteps bin) -> count
         size_t const ncalo = decl.calo_detectors.size();
         std::vector<std::vector<double>> exp_calo(sc.streams, std::vector<double>(ncalo, 0.0));
-        // StepDiagnostic::make_and_insert(core, 64): 64 + underflow + overflow bins, the
-        // executor clamps the step count at num_bins - 1
-        unsigned const step_bins = 64 + 2;
+        // StepDiagnostic::make_and_insert(core, max_bin): max_bin + underflow + overflow bins,
+        // the executor clamps the step count at num_bins - 1
+        unsigned const step_bins = sc.step_max_bin + 2;
         unsigned prim_index = 0;
         for (auto const& pc : prims)
         {
@@ -390,10 +402,14 @@ int main(int argc, char** argv)
             auto const violations_before = R.num_violations();
             ExploreStats st;
             EventRun er;
-            // streams alternate from root to root (a function of the root, so that a replay
-            // runs on the same stream); event ids 0..3
-            unsigned const stream = (sc.streams == 2) ? (pidx % 2) : 0;
-            unsigned const event = pidx % 4;
+            // streams change from root to root (a function of the root, so that a replay runs
+            // on the same stream); event ids 0..3.  The roots are ordered (kind, energy,
+            // position[, direction]) with the position in the low bit of pidx: stream and event
+            // are mixed so that neither is a function of the start position, the energy or the
+            // particle alone and stream != event % 2 on some roots (all four (stream, event
+            // parity) and (stream, position) pairs occur)
+            unsigned const stream = (sc.streams == 2) ? ((pidx / 2 + pidx / 4) % 2) : 0;
+            unsigned const event = (pidx / 3) % 4;
             auto body = [&](Choices& c) {
                 if (P->recorder)
                     P->recorder->steps.clear();
@@ -464,8 +480,10 @@ int main(int argc, char** argv)
                     {
                         ++exp_steps[{e.post->particle,
                                      int(std::min<unsigned>(e.post->num_steps, step_bins - 1))}];
-                        if (e.post->num_steps >= step_bins - 1)
-                            R.tag("step-diagnostic:overflow-bin");
+                        if (e.post->num_steps == step_bins - 1)
+                            R.tag("step-diagnostic:overflow-bin:tie");
+                        if (e.post->num_steps > step_bins - 1)
+                            R.tag("step-diagnostic:overflow-bin:beyond");
                     }
                     e.detector = -1;
                     if (!decl.detectors.empty())
